@@ -80,7 +80,10 @@ def gen_compiled(rng):
     c = {'compiled_histories': 1}
     tv = [V('T%d' % i) for i in range(1, 4)]
     uv = [V('U%d' % i) for i in range(1, 5)]
-    T = gterm(rng, tv, rng.choice([1, 2, 2]))
+    T = gterm(rng, tv, rng.choice([1, 2, 2, 3]))
+    if rng.random() < 0.08:
+        # a large asserted term (long list / wide structure with variables inside)
+        T = L([rng.choice(tv + CONST) for _ in range(rng.choice([16, 17, 33, 40]))], rng.choice([NIL, tv[0]]))
     fact = C('p', T) if rng.random() < 0.8 else C('p', T, gterm(rng, tv, 1))
     targets = term_vars(fact) or tv[:1]
     goals = []
